@@ -322,7 +322,7 @@ class ParametricModelBaseMixin(object):
 
     @classmethod
     def _get_object_type_name(cls):
-        return "parametric_model"
+        return "model"
 
     def _calculate_total_error(self):
         # uncertainties relative to the model values need up-to-date model values
